@@ -191,7 +191,12 @@ def check_find_range(fx, rep, rule):
     except S.Undecidable as e:
         rep.undecidable(rule, "%s/find_range/shape" % rule, loc=F.loc(e.node) if isinstance(e.node, dict) else "", construct=e.msg)
         return
-    ms, f = ("in", "members"), ("in", "f")
+    # the two parameters by position (the slice, the comparison), whatever they are called
+    names_ = [prm["pat"]["name"] if prm.get("pat") and prm["pat"].get("k") == "Bind" else None for prm in b["params"]]
+    if len(names_) != 2 or None in names_:
+        rep.undecidable(rule, "%s/find_range/shape" % rule, loc=F.short_file(b["sp"]), construct="parameters %s (expected the slice and the comparison)" % names_)
+        return
+    ms, f = ("in", names_[0]), ("in", names_[1])
     # the `matches_not` closure must be |m| f(m).is_ne()
     mn = [cb for cb in fx.closures_of(p)]
     mid_t = call("core::slice::binary_search_by", ms, f)
